@@ -573,7 +573,10 @@ def main():
     stats = {"agree": 0, "disagree": 0, "ok": 0, "known": 0, "bad": 0, "nospec": 0, "crash": 0}
     kinds = {}
     distinct = set()
+    adjust = getattr(spec, "adjust_verdict", None)
     for op, ia, (ma, ag, vd) in zip(ops, impl, res):
+        if adjust:
+            vd = adjust(op, ia, vd)
         kinds[op.split(" ", 1)[0]] = kinds.get(op.split(" ", 1)[0], 0) + 1
         if ma == "bad-op":
             bad.append((op, ia, ma, "bad:op-not-understood-by-driver"))
